@@ -19,6 +19,11 @@ Reading of the property (what the oracle demands; chosen so that minimally repai
   scoreprop) and pitch, times, velocity, pedal values, anchors/ids are unchanged (tick times of
   versions < 0.3.0, which are floats, are rounded to the nearest integer).  Info attributes with no
   1.0.0 counterpart may be rejected.
+* files (load_matchfile): a file of version V made of written lines is read as version V, every distinct
+  non-empty written line once, in file order, with its kind and (for exactly representable floats) equal
+  fields; lines no parser accepts and empty lines are dropped.  The version is the one stated by the first
+  non-empty line when that is a matchFileVersion line (either spelling), 0.1.0 otherwise (get_version's
+  documented fallback).  Ids are distinct within a file (validate_match_ids is not part of this property).
 * FractionalSymbolicDuration addition: value(a+b) = value(a)+value(b) exactly while the result's
   numerator and denominator stay <= 1024 (beyond that the class deliberately approximates).
 """
@@ -63,9 +68,11 @@ PARTIAL = [
     "table), under the value condition that no field text of the first component contains '(' and the fields the "
     "comma count walks over contain neither ',' nor ')' (identifiers without separators); lines violating it are "
     "only compared",
-    "floats: Adm for '%.kf' / repr fields is stated on the model's own output (the number is the k-decimal numeral "
-    "the formatter prints); the binary64 rounding inside the formatter (toBinary64, roundHalfEven) is modelled "
-    "exactly and compared on boundary values, not proved (fixed_decimal_roundtrip_partial)",
+    "floats: fixed_decimal_roundtrip (a k-decimal number with fewer than 2^52 units in the last place is written by "
+    "'%.kf' as its own numeral and read back: the binary64 rounding step is proved to stay within relative error "
+    "2^-53), fixed_decimal_fixpoint (any float: one formatting round, then a fixpoint), repr_roundtrip (the decimal "
+    "the model carries); not covered: negative zero (the model carries no sign of zero; never generated), "
+    "subnormal / overflowing values, and that Python's repr prints the shortest decimal (TRUSTED)",
     "durations: frac_string_roundtrip / frac_string_fixpoint cover simple, tuplet and additive durations whose "
     "running sums stay within the bound 1024 and whose parts are non-zero; a zero part is dropped by the class "
     "(same text and value afterwards, different object - shown by an example); bound_integers (> 1024, binary64 "
